@@ -1120,8 +1120,9 @@ def tree_path_to_fs_path(
       tree_encoding: Encoding used for tree paths (default: utf-8)
     Returns: Filesystem path as bytes (with os.sep, filesystem encoding)
     """
-    # Decode from tree encoding
-    path_str = tree_path.decode(tree_encoding)
+    # Decode from tree encoding; bytes that are not valid in that encoding
+    # are carried through unchanged (a tree path is an arbitrary byte string)
+    path_str = tree_path.decode(tree_encoding, "surrogateescape")
 
     # Replace / with OS separator if needed
     if os.sep != "/":
@@ -2022,9 +2023,10 @@ def add(
         if isinstance(paths, str | bytes | os.PathLike):
             paths = [paths]
         for p in paths:
-            # Handle bytes paths by decoding them
+            # Handle bytes paths by decoding them the way the file system
+            # does (names need not be valid UTF-8)
             if isinstance(p, bytes):
-                p = p.decode("utf-8")
+                p = os.fsdecode(p)
             path = Path(p)
             if not path.is_absolute():
                 # Make relative paths relative to the repo directory
